@@ -445,7 +445,8 @@ def c15k(ctx):
                                'swallowed and later items still run when the call returns' % (x.func.id, unparse(x.args[0])[:50]))
     imap = ctx.fn(A + ':ThreadPool.imap')
     mp = ctx.fn(A + ':ThreadPool.map')
-    ok = any(is_call(r.value, 'list') and contains(r.value, lambda y: is_call(y, 'self.imap')) for r in returns_of(mp.node) if r.value is not None)
+    ok = any(is_call(mp.canon.expr(r.value), 'list') and contains(mp.canon.expr(r.value), lambda y: is_call(y, 'self.imap'))
+             for r in returns_of(mp.node) if r.value is not None)
     ctx.check(ok, 'ThreadPool.map:collects', 'map() is list(imap()): every result is fetched', mp)
     ctx.check(n >= 1, 'fan-out:reduced-results', '%d reduction(s) over pool results found' % n, imap)
 
